@@ -859,6 +859,41 @@ Proof.
 Qed.
 
 (* the layout switch applies to version 5 only *)
+(* ---- the STARTUP compression option is not case-sensitive (server.go readFrame as of /repo 81d0138) *)
+(* every way of writing an upper-case ASCII name with letters of either case *)
+Fixpoint case_variants (u : list Z) : list (list Z) :=
+  match u with
+  | [] => [[]]
+  | x :: r => let vs := case_variants r in
+              map (cons x) vs ++ (if (65 <=? x) && (x <=? 90) then map (cons (x + 32)) vs else [])
+  end.
+
+Lemma compr_eqb_eq a b : compr_eqb a b = true -> a = b.
+Proof. destruct a, b; cbn; intro H; try reflexivity; discriminate. Qed.
+
+(* finite domains: the 8 spellings of LZ4, the 64 of SNAPPY, the 16 of NONE *)
+Theorem startup_compression_any_case (b : list Z) :
+  (In b (case_variants bytes_LZ4) -> compr_of_option b = CLz4) /\
+  (In b (case_variants bytes_SNAPPY) -> compr_of_option b = CSnappy) /\
+  (In b (case_variants bytes_NONE) -> compr_of_option b = CNone).
+Proof.
+  repeat split; intro H.
+  - assert (A : forallb (fun x => compr_eqb (compr_of_option x) CLz4) (case_variants bytes_LZ4) = true) by (vm_compute; reflexivity).
+    apply compr_eqb_eq. exact (proj1 (forallb_forall _ _) A b H).
+  - assert (A : forallb (fun x => compr_eqb (compr_of_option x) CSnappy) (case_variants bytes_SNAPPY) = true) by (vm_compute; reflexivity).
+    apply compr_eqb_eq. exact (proj1 (forallb_forall _ _) A b H).
+  - assert (A : forallb (fun x => compr_eqb (compr_of_option x) CNone) (case_variants bytes_NONE) = true) by (vm_compute; reflexivity).
+    apply compr_eqb_eq. exact (proj1 (forallb_forall _ _) A b H).
+Qed.
+
+(* "lz4", "snappy" (the spelling of the specifications) and mixed case are among them; another name is adopted as it is
+   (no compressor: the flagged response cannot be encoded, the write fails, the connection ends) *)
+Lemma ex_startup_spellings :
+  In [108; 122; 52] (case_variants bytes_LZ4) /\ In [115; 110; 97; 112; 112; 121] (case_variants bytes_SNAPPY) /\
+  In [115; 78; 97; 80; 112; 89] (case_variants bytes_SNAPPY) /\ length (case_variants bytes_SNAPPY) = 64%nat /\
+  compr_of_option [122; 115; 116; 100] = COther.
+Proof. vm_compute. repeat split; tauto. Qed.
+
 Lemma switch_versions v : In v [2; 3; 4; 65; 66] -> ProtocolVersion_SupportsModernFramingLayout v = false.
 Proof. cbn [In]. intros [<-|[<-|[<-|[<-|[<-|[]]]]]]; reflexivity. Qed.
 Lemma switch_v5 : ProtocolVersion_SupportsModernFramingLayout 5 = true.
